@@ -25,6 +25,7 @@ RULE = (
     "the fault list (forcing coverage/order/duplication, missing time keys, stop on the wrong side, release window/position faults, missing files and "
     "sections, illegal subgrids); non-trivial = a faulty run whose fault-free base ran and wrote >= 2 records; (scenario, fault) pairs distinct by construction"
 )
+RULE += " Beyond the lattice (chosen scenarios, not enumerated): a record of 800 days with a missing last step; a packed time coordinate; a plug-in grid without ll2xy (each with a control run)."
 ASSUMPTIONS = ["one fault at a time", "the kind of error (SystemExit code or exception) is recorded, not prescribed"]
 
 S0 = world.tosec("2020-05-01T00:00:00")
